@@ -15,7 +15,9 @@ then the 20 checks are run on it with --repo: every check must exit 0 (known fin
   reflect     `a < b` -> `b > a`; `a & b` -> `b & a`; `x if c else y` -> `y if not c else x`; raise E(f"...") -> msg = f"..."; raise E(msg)
   dslnest     `with m.If(a & b):` -> `with m.If(a): with m.If(b):`; parameters and returns annotated; docstrings dropped
   temps       assigned values and refusal tests through a temporary (`value_k = a & b`, `refuse_k = <test>`)
-  all         everything above but temps, in that order
+  augassign   `acc |= x` -> `acc = acc | x`; `for i, x in enumerate(S)` -> `for i in range(len(S)): x = S[i]`
+  hworder     runs of assignments to different signals reversed; sibling Case arms reversed
+  all         locals, order, demorgan, hoist, reflect, dslnest, in that order
 """
 import argparse
 import ast
@@ -316,8 +318,81 @@ def t_temps(tree):
     return tree
 
 
+def t_augassign(tree):
+    """`acc |= x` -> `acc = acc | x` (names only; not list displays); `for i, x in enumerate(S)` over a plain name or attribute ->
+    `for i in range(len(S)): x = S[i]`."""
+    class T(ast.NodeTransformer):
+        def visit_AugAssign(self, n):
+            self.generic_visit(n)
+            if isinstance(n.target, ast.Name) and isinstance(n.op, (ast.BitOr, ast.BitAnd, ast.Add, ast.Sub, ast.Mult)) and \
+                    not isinstance(n.value, (ast.List, ast.ListComp)):
+                return ast.copy_location(ast.Assign(targets=[ast.Name(id=n.target.id, ctx=ast.Store())],
+                                                    value=ast.BinOp(left=ast.Name(id=n.target.id, ctx=ast.Load()), op=n.op, right=n.value)), n)
+            return n
+
+        def visit_For(self, n):
+            self.generic_visit(n)
+            it = n.iter
+            if isinstance(it, ast.Call) and isinstance(it.func, ast.Name) and it.func.id == "enumerate" and len(it.args) == 1 and \
+                    not it.keywords and isinstance(it.args[0], ast.Name) and isinstance(n.target, ast.Tuple) and \
+                    len(n.target.elts) == 2 and isinstance(n.target.elts[0], ast.Name):
+                seq, i, x = it.args[0], n.target.elts[0], n.target.elts[1]
+                n.iter = ast.Call(func=ast.Name(id="range", ctx=ast.Load()),
+                                  args=[ast.Call(func=ast.Name(id="len", ctx=ast.Load()), args=[seq], keywords=[])], keywords=[])
+                n.target = ast.Name(id=i.id, ctx=ast.Store())
+                n.body.insert(0, ast.Assign(targets=[x], value=ast.Subscript(value=seq, slice=ast.Name(id=i.id, ctx=ast.Load()), ctx=ast.Load())))
+            return n
+    return T().visit(tree)
+
+
+def t_hworder(tree):
+    """Hardware statements in another order: runs of `m.d.<domain> += T.eq(V)` with pairwise different targets are reversed; sibling
+    `with m.Case(<constant pattern>):` arms of one Switch are reversed (Default stays last)."""
+    def key(st):
+        if isinstance(st, ast.AugAssign) and isinstance(st.op, ast.Add) and isinstance(st.target, ast.Attribute) and \
+                isinstance(st.target.value, ast.Attribute) and st.target.value.attr == "d" and isinstance(st.value, ast.Call) and \
+                isinstance(st.value.func, ast.Attribute) and st.value.func.attr == "eq":
+            return ast.unparse(st.value.func.value)
+        return None
+
+    def is_case(st):
+        return isinstance(st, ast.With) and len(st.items) == 1 and isinstance(st.items[0].context_expr, ast.Call) and \
+            isinstance(st.items[0].context_expr.func, ast.Attribute) and st.items[0].context_expr.func.attr == "Case" and \
+            st.items[0].context_expr.args and all(isinstance(a, (ast.Constant, ast.Attribute)) for a in st.items[0].context_expr.args)
+
+    def walk(stmts):
+        for st in stmts:
+            for fld in ("body", "orelse", "finalbody"):
+                b = getattr(st, fld, None)
+                if isinstance(b, list) and b and isinstance(b[0], ast.stmt):
+                    walk(b)
+        i = 0
+        while i < len(stmts):
+            j = i
+            while j < len(stmts) and key(stmts[j]) is not None:
+                j += 1
+            run = stmts[i:j]
+            if len(run) >= 2 and len({key(s_) for s_ in run}) == len(run):
+                stmts[i:j] = list(reversed(run))
+            i = max(j, i + 1)
+        i = 0
+        while i < len(stmts):
+            j = i
+            while j < len(stmts) and is_case(stmts[j]):
+                j += 1
+            run = stmts[i:j]
+            pats = [ast.unparse(a) for s_ in run for a in s_.items[0].context_expr.args]
+            if len(run) >= 2 and len(set(pats)) == len(pats):
+                stmts[i:j] = list(reversed(run))
+            i = max(j, i + 1)
+    for fn in [f for f in ast.walk(tree) if isinstance(f, ast.FunctionDef)]:
+        walk(fn.body)
+    return tree
+
+
 VARIANTS = collections.OrderedDict(unparse=[t_unparse], locals=[t_locals], order=[t_order], demorgan=[t_demorgan], hoist=[t_hoist],
-                                   reflect=[t_reflect], dslnest=[t_dslnest], temps=[t_temps])
+                                   reflect=[t_reflect], dslnest=[t_dslnest], temps=[t_temps], augassign=[t_augassign], hworder=[t_hworder])
+VARIANTS["hworder2"] = [t_order, t_hworder, t_augassign, t_temps]
 VARIANTS["all"] = [t_locals, t_order, t_demorgan, t_hoist, t_reflect, t_dslnest]
 
 
